@@ -120,7 +120,7 @@ def parseOp (line : String) : Op :=
         if ["add", "sub", "mult"].contains op then .uIn op (regNum a0) (regNum a1)
         else if op == "setneg" then .uSetNeg (regNum a0)
         else if op == "setscale" then .uSetScale (regNum a0) (regNum a1)
-        else if op == "setcoef" then .uSetCoef "set" (regNum a0) a1.toNat! (regNum a2)
+        else if op == "setcoef" || op == "setcoefp" then .uSetCoef "set" (regNum a0) a1.toNat! (regNum a2)
         else if op == "inc" then .uSetCoef "inc" (regNum a0) a1.toNat! (regNum a2)
         else if op == "dec" then .uSetCoef "dec" (regNum a0) a1.toNat! (regNum a2)
         else if op == "setzero" then .uSetZero (regNum a0)
@@ -131,7 +131,7 @@ def parseOp (line : String) : Op :=
       else if k == 'q' then
         if ["add", "sub", "mult"].contains op then .bIn op (regNum a0) (regNum a1)
         else if op == "setscale" then .bSetScale (regNum a0) (regNum a1)
-        else if op == "setcoef" then .bSetCoef "set" (regNum a0) (parseDeg a1) (regNum a2)
+        else if op == "setcoef" || op == "setcoefp" then .bSetCoef "set" (regNum a0) (parseDeg a1) (regNum a2)
         else if op == "inc" then .bSetCoef "inc" (regNum a0) (parseDeg a1) (regNum a2)
         else if op == "dec" then .bSetCoef "dec" (regNum a0) (parseDeg a1) (regNum a2)
         else if op == "eq" then .bEq (regNum a0) (regNum a1)
